@@ -13,9 +13,9 @@ RULE = ("one case = (function family, scale decade 1e-6..1e9, bracket order, roo
 ASSUMPTIONS = ["'inside the bracket' is required whenever a sign change exists or success is claimed (the no-root sentinel inf with success=False is accepted)",
                "'zero' is read with the property's own notion |f| <= tol"]
 FLOORS = {"quick": {"scalar_calls": 800, "vector_calls": 150, "sign_change_cases": 500, "steep_sign_change_cases": 100, "no_sign_change_cases": 100,
-                    "mixed_vectors": 40, "insitu_contract_evaluations": 100},
+                    "mixed_vectors": 40, "insitu_contract_evaluations": 100, "calls_repeated_after_other_api_use": 150},
           "thorough": {"scalar_calls": 8000, "vector_calls": 1500, "sign_change_cases": 5000, "steep_sign_change_cases": 1000, "no_sign_change_cases": 1000,
-                       "mixed_vectors": 400, "insitu_contract_evaluations": 1500}}
+                       "mixed_vectors": 400, "insitu_contract_evaluations": 1500, "calls_repeated_after_other_api_use": 900}}
 FAMILIES = ["linear", "cubic", "tanh", "expm", "poly3roots", "sin", "jump", "tangent", "endpoint", "positive", "sqrtlike", "bigexp", "quintic"]
 
 
@@ -92,6 +92,18 @@ def gen_cases(tier, seed):
     for i in range(200 if tier == "quick" else 2000):
         cases.append(dict(kind="vector", n=int(rng.integers(1, 17)), tol=str(rng.choice(["none", "eps", "1e-8", "1e-3"])), dtype=str(rng.choice(["float64", "float64", "float32", "longdouble"])),
                           order=int(rng.choice([0, 1])), pseed=int(rng.integers(1 << 30)), cost=2))
+    # the solvers are functions of (f, bracket, tol) alone: the same batch is solved in a fresh worker state and again after OTHER public entry points
+    # of the library have been used in this process (finite-difference Jacobians with sample inputs of large magnitude in every precision, an
+    # integration with events, a nonlinear solve, an interpolant): bit-identical answers, and the second pass is judged like any other call
+    rng2 = rng_for(1403, seed)
+    for i in range(10 if tier == "quick" else 60):
+        subs = []
+        dtn = ["float64", "float32", "longdouble"][i % 3]
+        for j in range(24):
+            subs.append(dict(kind="scalar", fam=FAMILIES[int(rng2.integers(len(FAMILIES)))], scale=float(10 ** rng2.uniform(-6, 9)) * float(rng2.choice([-1, 1])),
+                             root=float(rng2.uniform(-20, 20)) * float(rng2.choice([1, 1, 1e-3, 50])), half=float(10 ** rng2.uniform(-2, 1)), off=float(rng2.uniform(-0.9, 0.9)),
+                             order=int(rng2.choice([0, 1])), tol=str(rng2.choice(["none", "eps", "1e-12", "1e-8", "1e-3"])), dtype=dtn, pseed=int(rng2.integers(1 << 30))))
+        cases.append(dict(kind="after_use", dtype=dtn, subs=subs, pseed=int(rng2.integers(1 << 30)), cost=6))
     for i in range(8 if tier == "quick" else 60):
         cases.append(dict(kind="insitu", direction=int(rng.choice([-1, 1])), dense=bool(rng.random() < 0.5), pseed=int(rng.integers(1 << 30)), cost=6))
     return cases
@@ -138,7 +150,78 @@ def _near_sign_change(fn, x, tolx, dt, tol):
     return (fl * fr <= 0) or (fl * fc <= 0) or (fc * fr <= 0) or abs(fc) <= tol
 
 
+def _use_other_entry_points(dtn):
+    """Legitimate uses of other public parts of the library (none of them has any business with the root finders' behaviour)."""
+    import desolver as de
+    from desolver import utilities as du
+    from desolver.utilities import optimizer as opt
+    from desolver.utilities.interpolation import CubicHermiteInterp
+    for dn in ("float32", "float64", "longdouble", dtn):
+        dt = dtype_of(dn)
+        x = np.asarray([3.0e5, -2.0, 7.5e2], dtype=dt)
+
+        def g(v):
+            return np.stack([v[0] * v[1], np.sin(v[2]) + v[0], v[1] ** 2])
+        jw = du.JacobianWrapper(g, sample_input=x)
+        jw(x)
+        du.JacobianWrapper(g, base_order=4, sample_input=x * dt.type(1e3))(x)
+
+    def f(t, y, **kw):
+        return np.stack([y[1], -y[0]])
+    rhs = de.DiffRHS(f)
+    rhs.jac(np.asarray(0.5), np.asarray([1.0e4, -3.0]))
+
+    def ev(t, y, **kw):
+        return y[0]
+    sysm = de.OdeSystem(f, y0=np.asarray([1.0, 0.0]), t=(0.0, 4.0), dense_output=True, dt=0.05, rtol=1e-8, atol=1e-10)
+    sysm.method = "RK45"
+    sysm.integrate(events=[ev])
+    sysm.sol(np.asarray([0.3, 1.7]))
+    opt.nonlinear_roots(lambda v: np.stack([v[0] ** 2 - 2.0, v[1] - v[0]]), np.asarray([1.0, 1.0]))
+    opt.nonlinear_roots(lambda v: np.stack([v[0] ** 2 - 2.0, v[1] - v[0]]), np.asarray([1.0, 1.0], dtype=np.longdouble))
+    CubicHermiteInterp(np.asarray(0.0), np.asarray(1.0e3), np.asarray([0.0]), np.asarray([1.0]), np.asarray([1.0]), np.asarray([-1.0]))(np.asarray(400.0))
+
+
+def _after_use(spec):
+    from desolver.utilities import optimizer as opt
+    rec = util.Rec(sig="after_use|%s|%d" % (spec["dtype"], spec["pseed"] % 997))
+    feats = {"kind": "after_use", "dtype": spec["dtype"]}
+    dt = dtype_of(spec["dtype"])
+
+    def solve_all():
+        out = []
+        for sub in spec["subs"]:
+            fn = Fn(sub["fam"], sub["scale"], sub["root"], sub["pseed"])
+            a, b = _bracket(sub, dt)
+            if float(a) == float(b):
+                out.append(None)
+                continue
+            tol, tol_eff = _tol(sub["tol"], dt)
+            x, ok = opt.brentsroot(fn, [a, b], tol=tol)
+            out.append((fn, a, b, x, bool(ok), tol_eff))
+        return out
+    first = solve_all()
+    _use_other_entry_points(spec["dtype"])
+    rec.bump("batches_repeated_after_other_api_use")
+    second = solve_all()
+    for sub, r1, r2 in zip(spec["subs"], first, second):
+        if r1 is None or r2 is None:
+            continue
+        rec.bump("scalar_calls")
+        rec.bump("calls_repeated_after_other_api_use")
+        f2 = dict(feats, fam=sub["fam"], tol=sub["tol"], scale_decade=int(np.floor(np.log10(abs(sub["scale"])))))
+        same = (r1[4] == r2[4]) and (np.asarray(r1[3]).tobytes() == np.asarray(r2[3]).tobytes())
+        if not same:
+            rec.violate("purity", "result_depends_on_earlier_use_of_other_library_functions", f2, first=[float(r1[3]), r1[4]], second=[float(r2[3]), r2[4]])
+        _check_one(rec, f2, r2[0], r2[1], r2[2], r2[3], r2[4], dt, r2[5])
+    rec.nontrivial = True
+    rec.sample = {"spec": {"kind": "after_use", "dtype": spec["dtype"], "n": len(spec["subs"])}}
+    return rec.out()
+
+
 def run_case(spec):
+    if spec["kind"] == "after_use":
+        return _after_use(spec)
     if spec["kind"] == "scalar":
         return _scalar(spec)
     if spec["kind"] == "vector":
